@@ -981,4 +981,165 @@ theorem bigInt_litInt (s : List Char) (k : Int) (h : bigIntFromStrRadix s 10 = s
     show litInt ('-' :: D) = _
     rw [litInt_minus, hsp, hbD]; rfl
 
+/-! ## 5. `BigInt!`, `from_sign_and_limbs`, `MontFp!` -/
+
+theorem padTo_value (n : Nat) (l : List Nat) : value (padTo n l) = value l := by
+  unfold padTo; rw [value_append, value_replicate_zero]; simp
+
+theorem padTo_wf (n : Nat) (l : List Nat) (h : WF l) : WF (padTo n l) := by
+  unfold padTo; exact WF_append.mpr ⟨h, WF_replicate_zero _⟩
+
+theorem padTo_length (n : Nat) (l : List Nat) (h : l.length ≤ n) : (padTo n l).length = n := by
+  unfold padTo; simp; omega
+
+theorem constNeg_eq_neg (c : MontCfg) (a : List Nat) : constNeg c a = Mont.neg c a := by
+  unfold constNeg Mont.neg; cases isZero a <;> rfl
+
+theorem hexLimbs_length_le (n N : Nat) (hN : 0 < N) : (hexLimbs n).length ≤ N ↔ n < B ^ N := by
+  by_cases hn : n = 0
+  · subst hn; rw [hexLimbs_zero]
+    simp only [List.length_cons, List.length_nil]
+    constructor
+    · intro _; exact Nat.pow_pos B_pos
+    · intro _; omega
+  · obtain ⟨h1, h2, h3⟩ := hexLimbs_bounds n hn
+    have hB : 1 < B := by unfold B; norm_num
+    constructor
+    · intro h
+      exact Nat.lt_of_lt_of_le h2 (Nat.pow_le_pow_right B_pos h)
+    · intro h
+      have : B ^ ((hexLimbs n).length - 1) < B ^ N := Nat.lt_of_le_of_lt h1 h
+      have := (Nat.pow_lt_pow_iff_right hB).mp this
+      omega
+
+theorem padTo_hexLimbs (n N : Nat) (hN : 0 < N) (h : n < B ^ N) : padTo N (hexLimbs n) = toLimbs N n := by
+  have hl := (hexLimbs_length_le n N hN).mpr h
+  apply value_inj _ _ (padTo_wf _ _ (hexLimbs_wf n)) (toLimbs_wf _ _)
+  · rw [padTo_length _ _ hl, toLimbs_length]
+  · rw [padTo_value, hexLimbs_value, toLimbs_value, Nat.mod_eq_of_lt h]
+
+theorem int_mont_pos (x W p : Nat) : ((x * W % p : Nat) : Int) = ((x : Int) % p * W) % p := by
+  push_cast
+  exact ((Int.mod_modEq (x : Int) p).mul_right (W : Int)).symm
+
+theorem int_mont_neg (x W p : Nat) (hp : 0 < p) :
+    (((p - x * W % p) % p : Nat) : Int) = ((-(x : Int)) % p * W) % p := by
+  have hv : x * W % p ≤ p := Nat.le_of_lt (Nat.mod_lt _ hp)
+  rw [Int.natCast_mod, Nat.cast_sub hv]
+  push_cast
+  have h0 : (p : Int) ≡ 0 [ZMOD p] := by
+    show (p : Int) % p = 0 % p
+    simp
+  have h1 : (x : Int) * W % p ≡ x * W [ZMOD p] := Int.mod_modEq _ _
+  have h2 : (-(x : Int)) % p * W ≡ (-(x : Int)) * W [ZMOD p] := (Int.mod_modEq _ _).mul_right _
+  have h3 : (p : Int) - (x : Int) * W % p ≡ 0 - x * W [ZMOD p] := h0.sub h1
+  have e : (0 : Int) - x * W = (-(x : Int)) * W := by ring
+  rw [e] at h3
+  exact h3.trans h2.symm
+
+/-- `Fp::from_sign_and_limbs` on any `≤ N` well-formed limbs (reduced or not) -/
+theorem fromSignAndLimbs_spec (fl : Bool) (N p : Nat) (hN : 0 < N) (hodd : p % 2 = 1) (h1 : 1 < p)
+    (hlt : p < B ^ N) (pos : Bool) (ls : List Nat) (hwf : WF ls) (hlen : ls.length ≤ N) :
+    ∃ m, fromSignAndLimbs (mkCfg fl N p) pos ls = .ok m ∧ Elem (mkCfg fl N p) p m ∧
+      (value m : Int) = ((if pos then (value ls : Int) else -(value ls : Int)) % (p : Int)
+        * ((B ^ N : Nat) : Int)) % (p : Int) := by
+  have hc := Ark.C01.mk_cfg_ok fl N p hN hodd h1 hlt
+  have hn : (mkCfg fl N p).n = N := rfl
+  have hx : Limbs (mkCfg fl N p) (padTo N ls) :=
+    ⟨by rw [hn]; exact padTo_length N ls hlen, padTo_wf N ls hwf⟩
+  obtain ⟨f1, f2⟩ := Ark.C01.fp_new_correct hc hx
+  rw [padTo_value, hn] at f2
+  unfold fromSignAndLimbs
+  rw [hn, if_neg (by simpa using hlen)]
+  cases pos with
+  | true =>
+    refine ⟨_, rfl, f1, ?_⟩
+    simp only [if_true]
+    rw [f2]; exact int_mont_pos _ _ _
+  | false =>
+    obtain ⟨g1, g2⟩ := Ark.C01.neg_exact hc _ f1
+    refine ⟨_, rfl, ?_, ?_⟩
+    · simp only [Bool.false_eq_true, if_false]; rw [constNeg_eq_neg]; exact g1
+    · simp only [Bool.false_eq_true, if_false]
+      rw [constNeg_eq_neg, g2, f2]
+      exact int_mont_neg _ _ _ (by omega)
+
+theorem fromSignAndLimbs_panic (c : MontCfg) (pos : Bool) (ls : List Nat) (h : c.n < ls.length) :
+    fromSignAndLimbs c pos ls = .panic := by
+  unfold fromSignAndLimbs
+  rw [if_pos (by simpa using h)]
+
+theorem montFp_eq (c : MontCfg) (s : List Char) : montFp c s = match litInt s with
+    | none => .panic
+    | some k => fromSignAndLimbs c (decide (0 ≤ k)) (hexLimbs k.natAbs) := by
+  unfold montFp toSignAndLimbs
+  rw [strToLimbsU64_eq]
+  cases litInt s <;> rfl
+
+theorem signed_natAbs (k : Int) :
+    (if decide (0 ≤ k) = true then (k.natAbs : Int) else -(k.natAbs : Int)) = k := by
+  by_cases h : 0 ≤ k
+  · rw [if_pos (decide_eq_true h), Int.natAbs_of_nonneg h]
+  · rw [if_neg (by simpa using h), Int.ofNat_natAbs_of_nonpos (by omega)]; omega
+
+theorem montFp_spec (fl : Bool) (N p : Nat) (hN : 0 < N) (hodd : p % 2 = 1) (h1 : 1 < p)
+    (hlt : p < B ^ N) (s : List Char) (k : Int) (hk : litInt s = some k) (hkl : k.natAbs < B ^ N) :
+    ∃ m, montFp (mkCfg fl N p) s = .ok m ∧ Elem (mkCfg fl N p) p m ∧
+      (value m : Int) = (k % (p : Int) * ((B ^ N : Nat) : Int)) % (p : Int) := by
+  have hl := (hexLimbs_length_le k.natAbs N hN).mpr hkl
+  obtain ⟨m, e1, e2, e3⟩ := fromSignAndLimbs_spec fl N p hN hodd h1 hlt (decide (0 ≤ k))
+    (hexLimbs k.natAbs) (hexLimbs_wf _) hl
+  refine ⟨m, ?_, e2, ?_⟩
+  · rw [montFp_eq, hk]; exact e1
+  · rw [e3, hexLimbs_value, signed_natAbs]
+
+theorem montFp_panic_big (c : MontCfg) (hN : 0 < c.n) (s : List Char) (k : Int)
+    (hk : litInt s = some k) (hkl : B ^ c.n ≤ k.natAbs) : montFp c s = .panic := by
+  rw [montFp_eq, hk]
+  apply fromSignAndLimbs_panic
+  have := (hexLimbs_length_le k.natAbs c.n hN).not.mpr (by omega)
+  omega
+
+theorem montFp_panic_none (c : MontCfg) (s : List Char) (hk : litInt s = none) :
+    montFp c s = .panic := by
+  rw [montFp_eq, hk]
+
+theorem bigIntMacro_eq (N : Nat) (s : List Char) : bigIntMacro N s = match litInt s with
+    | none => .panic
+    | some k => if k < 0 then .panic else if N < (hexLimbs k.natAbs).length then .panic
+        else .ok (padTo N (hexLimbs k.natAbs)) := by
+  unfold bigIntMacro toSignAndLimbs
+  rw [strToLimbsU64_eq]
+  cases litInt s with
+  | none => rfl
+  | some k =>
+    simp only
+    by_cases h : k < 0
+    · simp [h]
+    · have : 0 ≤ k := by omega
+      simp only [this, decide_true, Bool.not_true, Bool.false_eq_true, if_false, h]
+      by_cases h2 : N < (hexLimbs k.natAbs).length
+      · simp [h2]
+      · simp [h2]
+
+theorem bigIntMacro_ok (N : Nat) (hN : 0 < N) (s : List Char) (k : Int) (hk : litInt s = some k)
+    (h0 : 0 ≤ k) (hkl : k.natAbs < B ^ N) : bigIntMacro N s = .ok (toLimbs N k.toNat) := by
+  rw [bigIntMacro_eq, hk]
+  have hl := (hexLimbs_length_le k.natAbs N hN).mpr hkl
+  simp only
+  rw [if_neg (by omega), if_neg (by omega), padTo_hexLimbs _ _ hN hkl]
+  congr 2
+  omega
+
+theorem bigIntMacro_panic (N : Nat) (hN : 0 < N) (s : List Char) (k : Int) (hk : litInt s = some k)
+    (h : k < 0 ∨ B ^ N ≤ k.natAbs) : bigIntMacro N s = .panic := by
+  rw [bigIntMacro_eq, hk]
+  simp only
+  rcases h with h | h
+  · rw [if_pos h]
+  · have := (hexLimbs_length_le k.natAbs N hN).not.mpr (by omega)
+    by_cases h0 : k < 0
+    · rw [if_pos h0]
+    · rw [if_neg h0, if_pos (by omega)]
+
 end Ark.Lit
